@@ -160,6 +160,114 @@ fn scenario_cancel_mid_run(rng: &mut Rng, id: String, rep: &mut Report, props: &
     finish(w, rep, props, "cancel-mid-run");
 }
 
+/// `update_config` (same configuration) called by the ticking thread while a background run is held at a phase
+/// boundary: the call may wait for the run or not, but afterwards the status flags must still tell the truth and
+/// the quiescent result must be the from-scratch result
+fn scenario_update_config_mid_run(rng: &mut Rng, id: String, rep: &mut Report, props: &[&str]) {
+    let threads = *rng.pick(&[1usize, 2, 4]);
+    let mut w = World::new(id, rng, threads, 1, None);
+    let k = w.new_injector();
+    let n0 = rng.range(20, 3000);
+    w.push_via(k, n0, true);
+    let variant = rng.below(3);
+    if variant != 0 {
+        w.edit(0, *rng.pick(&["o", "f", "a"]));
+    }
+    if variant == 2 {
+        // the held run is the second one (rescoring / appended pattern), earlier results exist
+        while w.tick(50).running {}
+        let more = rng.range(20, 2000);
+        w.push_via(k, more, rng.coin());
+        let t = if rng.coin() { format!("{}{}", w.texts[0], rng.pick(&['o', 'a', 'b'])) } else { (*rng.pick(&["b", "oo", "x"])).to_owned() };
+        w.edit(0, &t);
+    }
+    wait_no_run_pending(2000);
+    let phase = *rng.pick(&[Point::RunEntry, Point::RunAfterResetMatches, Point::RunAfterScan, Point::RunBeforeSort, Point::RunAfterSort, Point::RunBeforeNotifyCheck]);
+    pause_at(phase);
+    let st = w.tick(0);
+    rep.count(&format!("tick.changed={}.running={}", st.changed, st.running));
+    if !wait_paused(0, 1500) {
+        rep.count("directed.phase-not-reached");
+        cancel_pause(0);
+        w.update_config_same();
+    } else {
+        rep.count(&format!("directed.update-config.run-held-at.{phase:?}"));
+        // update_config takes the worker lock: let the run go on shortly after the call started
+        let delay = Duration::from_micros(200 + rng.below(20_000) as u64);
+        let releaser = std::thread::spawn(move || {
+            std::thread::sleep(delay);
+            release(0);
+        });
+        w.update_config_same();
+        let _ = releaser.join();
+        rep.count("directed.update-config-mid-run");
+    }
+    // no further edit, push or restart: whatever the ticks report now is about the work that was in progress
+    let mut g = 0;
+    while w.tick(*rng.pick(&[0u64, 1, 10])).running && g < 3000 {
+        g += 1;
+        if g % 50 == 0 {
+            std::thread::sleep(Duration::from_millis(1));
+        }
+    }
+    finish(w, rep, props, "update-config-mid-run");
+}
+
+/// a writer publishes its item exactly between two reads of the item vector that the background run performs while it
+/// prunes its in-flight list (reset for the empty pattern / a rescore) or scans new items
+fn scenario_publish_between_reads(rng: &mut Rng, id: String, rep: &mut Report, props: &[&str]) {
+    let threads = *rng.pick(&[1usize, 1, 2, 4]);
+    let mut w = World::new(id, rng, threads, 1, None);
+    let k = w.new_injector();
+    let empty = rng.coin();
+    if !empty {
+        w.edit(0, *rng.pick(&["o", "a", "f"]));
+    }
+    let n0 = rng.range(0, 30);
+    w.push_via(k, n0, true);
+    while w.tick(50).running {}
+    let nheld = rng.range(1, 3);
+    let mut held: Vec<HeldWriter> = Vec::new();
+    for _ in 0..nheld {
+        held.push(HeldWriter::start(&mut w, k));
+        if rng.coin() {
+            let n = rng.range(1, 5);
+            w.push_via(k, n, rng.coin());
+        }
+    }
+    // let the worker record them as in flight
+    w.tick(20);
+    w.tick(20);
+    let reset_phase = rng.chance(3, 4);
+    if !empty {
+        // a pattern change that is not an append: the next run rebuilds the match list
+        let t = *rng.pick(&["b", "x", "oo", ""]);
+        if t != w.texts[0] {
+            w.edit(0, t);
+        }
+    }
+    wait_no_run_pending(2000);
+    let (from, to) = if reset_phase { (Point::RunAfterClearedReset, Point::RunAfterResetMatches) } else { (Point::RunAfterResetMatches, Point::RunAfterScan) };
+    let nth = rng.range(1, 4 * nheld + 3) as u64;
+    let which = rng.below(held.len());
+    held[which].publish_at_nth_read(from, to, nth);
+    let st = w.tick(*rng.pick(&[0u64, 50]));
+    rep.count(&format!("tick.changed={}.running={}", st.changed, st.running));
+    wait_no_run_pending(3000);
+    let (seen, fired) = disarm_trigger();
+    rep.count(if fired { "directed.published-between-two-reads-of-the-run" } else { "directed.publish-trigger-not-reached" });
+    rep.max("directed.max-reads-in-phase", seen);
+    w.tick(20);
+    if rng.coin() {
+        w.tick(20);
+    }
+    for h in held.iter_mut() {
+        h.release();
+    }
+    drop(held);
+    finish(w, rep, props, "publish-between-reads");
+}
+
 /// restart scenarios (C12)
 fn scenario_restart(rng: &mut Rng, id: String, rep: &mut Report, props: &[&str]) {
     let threads = *rng.pick(&[1usize, 2, 4]);
@@ -345,12 +453,14 @@ pub fn run_directed(opts: &Opts, rep: &mut Report, props: &[&str]) {
             0 | 1 => scenario_two_in_flight(&mut rng, id, rep, props),
             2 => scenario_cancel_mid_run(&mut rng, id, rep, props),
             3 | 4 => scenario_restart(&mut rng, id, rep, props),
+            6 => scenario_publish_between_reads(&mut rng, id, rep, props),
+            7 => scenario_update_config_mid_run(&mut rng, id, rep, props),
             _ => scenario_typing(&mut rng, id, rep, props),
         }
         rep.count("histories");
         rep.distinct(mix(&[opts.seed, opts.shard, idx]));
         if rep.want_sample() && idx % 5 == 0 {
-            rep.sample(jobj! {"scenario" => ["two-in-flight", "two-in-flight", "cancel-mid-run", "restart", "restart", "typing", "typing", "typing"][(idx % 8) as usize],
+            rep.sample(jobj! {"scenario" => ["two-in-flight", "two-in-flight", "cancel-mid-run", "restart", "restart", "typing", "publish-between-reads", "update-config-mid-run"][(idx % 8) as usize],
                 "case_id" => format!("{}:{}:{}", opts.seed, opts.shard, idx)});
         }
     }
@@ -672,6 +782,80 @@ fn c13_same_count(rng: &mut Rng, id: String, rep: &mut Report) {
     w.shutdown();
 }
 
+/// `update_config` from the ticking thread while the run that a tick left behind is still in progress: whatever the
+/// call does to that run, the promise of the tick (running=true => a notification follows) stands
+fn c13_update_config(rng: &mut Rng, id: String, rep: &mut Report) {
+    reset_ctl(true);
+    let threads = *rng.pick(&[1usize, 2, 4]);
+    let mut w = World::new(id.clone(), rng, threads, 1, None);
+    let empty = rng.coin();
+    if !empty {
+        w.edit(0, "o");
+    }
+    let k = w.new_injector();
+    let n = rng.range(3, 400);
+    let first = w.alloc_ids(n as u32);
+    inject(&w.handles[k].inj, &w.reg, 0, first, n, true, &w.invoked, &w.completed);
+    if rng.coin() {
+        // earlier results exist; the held run is a later one
+        let mut g = 0;
+        while w.n().tick(50).running && g < 100 {
+            g += 1;
+        }
+        let more = rng.range(3, 400);
+        let first = w.alloc_ids(more as u32);
+        inject(&w.handles[k].inj, &w.reg, 0, first, more, rng.coin(), &w.invoked, &w.completed);
+        if rng.coin() {
+            w.edit(0, if empty { "f" } else { "oo" });
+        }
+    }
+    wait_no_run_pending(2000);
+    let phase = *rng.pick(&[Point::RunEntry, Point::RunAfterResetMatches, Point::RunAfterScan, Point::RunBeforeSort, Point::RunAfterSort]);
+    pause_at(phase);
+    let begin = record_event(EvKind::TickBegin);
+    let st = w.n().tick(0);
+    record_event(EvKind::TickEnd { changed: st.changed, running: st.running });
+    let held = wait_paused(0, 1500);
+    if !held {
+        cancel_pause(0);
+    }
+    let delay = Duration::from_micros(200 + rng.below(10_000) as u64);
+    let releaser = std::thread::spawn(move || {
+        std::thread::sleep(delay);
+        release(0);
+    });
+    w.update_config_same();
+    let _ = releaser.join();
+    rep.count(&format!("c13.update-config.run-held={held}.running={}", st.running));
+    let ok = wait_no_run_pending(3000);
+    std::thread::sleep(Duration::from_millis(2));
+    if !ok {
+        rep.count("c13.runs-still-pending(inconclusive)");
+    } else {
+        rep.count("c13.schedules-judged");
+        let events = with_ctl(|c| c.events.clone());
+        let notified_after = events.iter().any(|(s, k)| *k == EvKind::Notify && *s > begin);
+        if st.running && !notified_after {
+            let tail: Vec<J> = events.iter().rev().take(30).rev().map(|(s, k)| J::Str(format!("{s}: {k:?}"))).collect();
+            rep.violation(
+                "C13",
+                "lost-wake-up",
+                format!("update_config while the run was held at {phase:?}"),
+                jobj! {"problem" => "tick returned running=true, update_config was called while that run was in progress, every run has returned and no notify followed the tick",
+                       "case_id" => id, "events_tail" => J::Arr(tail)},
+            );
+        }
+    }
+    while !w.handles.is_empty() {
+        w.drop_injector(0);
+    }
+    let mut g = 0;
+    while w.n().tick(50).running && g < 100 {
+        g += 1;
+    }
+    w.shutdown();
+}
+
 /// every push / extend calls notify after the new items are visible
 fn c13_injector_clause(rng: &mut Rng, id: String, rep: &mut Report) {
     thread_local! {
@@ -792,6 +976,7 @@ fn c13_event_loop(rng: &mut Rng, id: String, rep: &mut Report) {
     let mut idle_rounds = 0;
     let mut injectors_done = false;
     let mut edits_left = rng.range(0, 3);
+    let mut config_calls_left = rng.range(0, 3);
     loop {
         let got = {
             let (m, cv) = &*pending;
@@ -817,6 +1002,11 @@ fn c13_event_loop(rng: &mut Rng, id: String, rep: &mut Report) {
             record_event(EvKind::TickEnd { changed: st.changed, running: st.running });
             last = Some((begin, st));
             ticks += 1;
+            if st.running && config_calls_left > 0 && rng.chance(1, 4) {
+                config_calls_left -= 1;
+                w.update_config_same();
+                rep.count("c13.event-loop-update-config-after-running-tick");
+            }
             continue;
         }
         // idle: no notification for 30 ms
@@ -891,7 +1081,8 @@ pub fn run_c13(opts: &Opts, rep: &mut Report) {
                 let empty = (idx % 20) >= 9;
                 c13_schedule(order, empty, &mut rng, id, rep);
             }
-            18 if (idx / 20) % 2 == 0 => c13_injector_clause(&mut rng, id, rep),
+            18 if (idx / 20) % 3 == 0 => c13_injector_clause(&mut rng, id, rep),
+            18 if (idx / 20) % 3 == 1 => c13_update_config(&mut rng, id, rep),
             18 => c13_same_count(&mut rng, id, rep),
             _ => {
                 set_delays(true);
@@ -902,7 +1093,7 @@ pub fn run_c13(opts: &Opts, rep: &mut Report) {
         rep.count("histories");
         rep.distinct(mix(&[opts.seed, opts.shard, idx]));
         if rep.want_sample() && idx % 7 == 0 {
-            rep.sample(jobj! {"kind" => if idx % 20 < 18 { format!("directed ordering [{}] empty_pattern={}", ORDERINGS[((idx / 20 * 18 + idx % 20) % 11) as usize], (idx % 20) >= 9) } else if idx % 20 == 18 { "injector clause".into() } else { "event loop with delays".to_string() }});
+            rep.sample(jobj! {"kind" => if idx % 20 < 18 { format!("directed ordering [{}] empty_pattern={}", ORDERINGS[((idx / 20 * 18 + idx % 20) % 11) as usize], (idx % 20) >= 9) } else if idx % 20 == 18 { ["injector clause", "update_config while a run is held", "same match count"][((idx / 20) % 3) as usize].to_string() } else { "event loop with delays".to_string() }});
         }
         let timeouts = with_ctl(|c| std::mem::take(&mut c.pause_timeouts));
         rep.add("pause-timeouts", timeouts);
